@@ -892,6 +892,9 @@ func (a *agg) add(j *job) {
 	t.RandDraws += s.RandDraws
 	t.ClockReads += s.ClockReads
 	t.HotYields += s.HotYields
+	t.Spawned += s.Spawned
+	t.Leaked += s.Leaked
+	t.BlockedOps += s.BlockedOps
 	if j.kind == "cold" {
 		t.Cold += s.Runs
 	}
@@ -1005,23 +1008,26 @@ func (o *orch) writeEvidence(a *agg, c counts, nviol int) {
 		"simulated_time": map[string]any{"unit": "yields (function entries, loop heads and statements of repository code executed under the simulator)",
 			"total": a.s.Steps, "max_per_run": a.s.MaxSteps},
 		"faults_fired": map[string]any{
-			"F1_preemptions":          a.s.Switches,
-			"F2_map_reorderings":      a.s.MapReord,
-			"F2_map_ranges_served":    a.s.MapServed,
-			"F3_aborted_calls":        a.s.Aborted,
-			"F4_cold_start_processes": a.s.Cold,
-			"F5_docs_with_spare_cap":  a.s.SpareCapDocs,
-			"F5_results_fed_back":     a.s.Feeds,
-			"F5_caller_mutations":     a.s.Mutates,
-			"F6_forced_gc":            a.s.GCs,
-			"F7_shim_lock_contention": a.s.Blocks,
-			"F7_pool_gets":            a.s.PoolGets,
-			"F7_pool_drops":           a.s.PoolDrops,
-			"F7_rand_draws":           a.s.RandDraws,
-			"F7_clock_reads":          a.s.ClockReads,
-			"hot_yields":              a.s.HotYields,
-			"static_errors":           a.s.StaticErr,
-			"F7_note":                 "0 means the repository has no sync/time/rand call site for the shims to act on",
+			"F1_preemptions":                  a.s.Switches,
+			"F2_map_reorderings":              a.s.MapReord,
+			"F2_map_ranges_served":            a.s.MapServed,
+			"F3_aborted_calls":                a.s.Aborted,
+			"F4_cold_start_processes":         a.s.Cold,
+			"F5_docs_with_spare_cap":          a.s.SpareCapDocs,
+			"F5_results_fed_back":             a.s.Feeds,
+			"F5_caller_mutations":             a.s.Mutates,
+			"F6_forced_gc":                    a.s.GCs,
+			"F7_shim_lock_contention":         a.s.Blocks,
+			"F7_pool_gets":                    a.s.PoolGets,
+			"F7_pool_drops":                   a.s.PoolDrops,
+			"F7_rand_draws":                   a.s.RandDraws,
+			"F7_clock_reads":                  a.s.ClockReads,
+			"hot_yields":                      a.s.HotYields,
+			"library_goroutines_as_tasks":     a.s.Spawned,
+			"library_goroutines_left_blocked": a.s.Leaked,
+			"channel_operations_that_blocked": a.s.BlockedOps,
+			"static_errors":                   a.s.StaticErr,
+			"F7_note":                         "0 means the repository has no sync/time/rand call site for the shims to act on",
 		},
 		"interleavings": map[string]any{
 			"distinct_switch_sequences":           len(a.sw),
